@@ -482,6 +482,8 @@ func init() {
 		Item{Kind: "assigns", Name: "LegacyStageRecord.Read"},
 		Item{Kind: "assigns", Name: "NewFile"},
 		Item{Kind: "assigns", Name: "Image.WriteFile"},
+		// follow-up wp-c19c: which fields Image.Remove sets on the record it creates
+		Item{Kind: "assigns", Name: "Image.Remove"},
 		// follow-up wp-c19b: the write-back …
 		Item{Kind: "cbfs_records", Name: "NewImage"},
 		Item{Kind: "builtins", Name: "Image.Update"},
